@@ -319,6 +319,10 @@ func c35(x *Ctx) {
 		})
 	}
 	c.Min(r2, 4)
+
+	// ---- per-worker confinement: the lock-free worker state is touched by its own goroutine only -------------
+	x.workerConfined("C35.worker-confined", x.PkgFuncs("collect"))
+	c.Min("C35.worker-confined", 4)
 }
 
 func isFreshBase(base ssa.Value) bool {
